@@ -173,6 +173,10 @@ def main():
     cand_b |= {"Ta180m-B-", "Ta180m-EC"}
     cand_b = {c for c in cand_b if not c.startswith("decay0") and c not in ("PbAtShell",)}
     cand_d = set(n for n, _ in readme_dbd) | set(lis_dbd) | set(table)
+    # names that merely CONTAIN a published name after leading junk are not published names (the matching of trailing junk is the
+    # prefix-matching finding recorded under C06 and is not probed here)
+    cand_b |= {pre + n for n in sorted(lis_bkg) for pre in ("x", " ", "my_")}
+    cand_d |= {pre + n for n in sorted(lis_dbd) for pre in ("x", " ", "A=100:")}
     cfile = tempfile.NamedTemporaryFile("w", suffix=".cand", delete=False, dir=bdir)
     for c in sorted(cand_b):
         cfile.write("B %s\n" % c)
